@@ -39,6 +39,23 @@ func (o unmarshalOptions) Options() proto.UnmarshalOptions {
 	}
 }
 
+// unmarshalNested decodes b into m through the proto package (the route to
+// messages this package has no table-driven coder for: extension values,
+// legacy and dynamic messages). The nested message continues with what is
+// left of the recursion budget instead of starting over with the default
+// limit.
+func (o unmarshalOptions) unmarshalNested(b []byte, m protoreflect.Message) (protoiface.UnmarshalOutput, error) {
+	if o.depth <= 0 {
+		return protoiface.UnmarshalOutput{}, errRecursionDepth
+	}
+	po := o.Options()
+	po.RecursionLimit = o.depth
+	return po.UnmarshalState(protoiface.UnmarshalInput{
+		Buf:     b,
+		Message: m,
+	})
+}
+
 func (o unmarshalOptions) DiscardUnknown() bool {
 	return o.flags&protoiface.UnmarshalDiscardUnknown != 0
 }
